@@ -7,12 +7,35 @@ from .util import Stream
 from .ref import ssa as RS
 
 
+def grid_array(times, how='plain'):
+    """the same time values in another memory layout: a strided view whose gaps hold other plausible times (the midpoints), or a
+    column of a C-ordered table whose other column holds shifted times; code that walks the buffer ignoring strides reads those"""
+    t = np.array(times, dtype=float)
+    if how == 'plain' or len(t) < 2:
+        return t
+    if how == 'strided':
+        base = np.empty(2 * len(t))
+        base[::2] = t
+        base[1::2] = np.append((t[:-1] + t[1:]) / 2.0, t[-1] + 0.5 * (t[-1] - t[-2]))
+        v = base[::2]
+    elif how == 'column':
+        tab = np.empty((len(t), 2))
+        tab[:, 0] = t
+        tab[:, 1] = t + 0.37 * (t[1] - t[0])
+        v = tab[:, 0]
+    else:
+        raise ValueError(how)
+    assert not v.flags['C_CONTIGUOUS'] and np.array_equal(v, t)
+    return v
+
+
 class Impl:
     """the real simulator for one (spec, safe) configuration; reused across traces"""
 
     def __init__(self, spec, safe=False, model_cls=None, prepare=None, edited=False):
         self.spec = spec
         self.edited = edited
+        self.times_repr = 'plain'      # memory layout of the time grid handed over (grid_array)
         self.start_repr = 'float'      # how the start state is handed over: float64 array, int64 array, strided view
         if edited:
             # the same definition reached through edits: reactions added one by one, rejected create_reaction calls in between
@@ -71,6 +94,9 @@ class Impl:
         if dt is not None:
             self.iface.py_set_dt(float(dt))
 
+    def grid(self, times):
+        return grid_array(times, self.times_repr)
+
     def rows(self, arr):
         return [[float(r[i]) for i in self.perm] for r in arr]
 
@@ -78,7 +104,7 @@ class Impl:
         from bioscrape.simulator import SSASimulator
         self.start(x0, t0, dt)
         with Stream(us) as st:
-            res = self.sim('SSASimulator').py_simulate(self.iface, np.array(times, dtype=float))
+            res = self.sim('SSASimulator').py_simulate(self.iface, self.grid(times))
         out = dict(rows=self.rows(res.py_get_result()), consumed=st.consumed, overrun=st.overrun)
         self.start()   # restore the model's initial condition (shared array)
         return out
@@ -122,7 +148,7 @@ def run_delay(impl, us, times, qdt, ncols, x0=None, t0=0.0, dt=None, template=No
     nr = len(impl.spec['reactions'])
     q = template.py_copy() if template is not None else ArrayDelayQueue.setup_queue(nr, ncols, qdt)
     with Stream(us) as st:
-        res = impl.sim('DelaySSASimulator').py_delay_simulate(impl.iface, q, np.array(times, dtype=float))
+        res = impl.sim('DelaySSASimulator').py_delay_simulate(impl.iface, q, impl.grid(times))
     fq = res.py_get_delay_queue()
     nqt = fq.py_get_next_queue_time()
     # the template the run's queue was copied from must be untouched (read through the array it was constructed on)
@@ -159,7 +185,7 @@ def run_volume(impl, us, times, vdt, vspec, x0=None, t0=0.0, volume_obj=None):
     impl.start(x0, t0, vdt)
     v = volume_obj if volume_obj is not None else make_volume(vspec)[0]
     with Stream(us) as st:
-        res = impl.sim('VolumeSSASimulator').py_volume_simulate(impl.iface, v, np.array(times, dtype=float))
+        res = impl.sim('VolumeSSASimulator').py_volume_simulate(impl.iface, v, impl.grid(times))
     out = dict(rows=impl.rows(res.py_get_result()), consumed=st.consumed, overrun=st.overrun,
                vols=[float(z) for z in res.py_get_volume()], divided=bool(res.py_cell_divided()),
                times=[float(z) for z in res.py_get_timepoints()])
